@@ -651,6 +651,7 @@ def r10(run: Run, rt):
 
 
 def run(run: Run):
+    from .common import cached_guard as _cached_guard
     src = get_source()
     g = get_grammar(src)
     em = get_emission(src)
@@ -661,21 +662,21 @@ def run(run: Run):
     run.rule('C14.R4', 'COLUMN is 1-based in all forms')
     run.rule('C14.R5', 'returned positions/rows come from an iteration over the original area')
     run.rule('C14.R6', '1-based row/column/area numbers index with n - 1')
-    run.guard('C14.R1', r1, run, src, g, em, rt)
-    run.guard('C14.R2', check_plumbing, run, 'C14.R2', src, em, rt, FUNCS)
-    run.guard('C14.R3', r3, run, src, g, em, rt)
-    run.guard('C14.R4', r4, run, src, g, em)
-    run.guard('C14.R5', r5, run, rt)
-    run.guard('C14.R6', r6, run, rt)
+    _cached_guard(run, 'C14.R1', r1, src, g, em, rt)
+    _cached_guard(run, 'C14.R2', check_plumbing, 'C14.R2', src, em, rt, FUNCS)
+    _cached_guard(run, 'C14.R3', r3, src, g, em, rt)
+    _cached_guard(run, 'C14.R4', r4, src, g, em)
+    _cached_guard(run, 'C14.R5', r5, rt)
+    _cached_guard(run, 'C14.R6', r6, rt)
     run.rule('C14.R7', 'exact scans answer at the first equal key; approximate scans keep the last key <= value and stop only at a greater key')
-    run.guard('C14.R7', r7, run, rt)
-    run.guard('C14.R7', r7_eval_all, run, rt)
+    _cached_guard(run, 'C14.R7', r7, rt)
+    _cached_guard(run, 'C14.R7', r7_eval_all, rt)
     from . import c02 as _c02
     from .common import borrow as _b2
     run.rule('C14.R9', 'the area a lookup scans is the rectangle between the written corners, row-major (shared with C02.R1/R2/R4)')
     _b2(run, 'C14.R9', _c02.r1_any, src, g)
     run.rule('C14.R11', 'INDEX: the addressed cell decides, other cells of the area have no say; outside the area is #REF!')
-    run.guard('C14.R11', r11_index_eval, run, rt)
+    _cached_guard(run, 'C14.R11', r11_index_eval, rt)
     run.floor('C14.R11', 20)
     _b2(run, 'C14.R9', _c02.r2, src)
     _b2(run, 'C14.R9', _c02.r4_r5, src)
@@ -692,7 +693,7 @@ def run(run: Run):
     _borrow(run, 'C14.R8', _c08.r4, _src, _grt(_src))
     run.floor('C14.R8', 50)
     run.rule('C14.R10', 'a numeric key is a candidate for a numeric lookup value whatever the int/float mix')
-    run.guard('C14.R10', r10, run, rt)
+    _cached_guard(run, 'C14.R10', r10, rt)
     run.floor('C14.R10', 20)
     run.floor('C14.R7', 8)
     run.floor('C14.R1', 10)
